@@ -73,21 +73,85 @@ def kernel_rules(P, R):
     R.check(ok, 'C14.a', ar, rets[-1] if rets else None, 'the shoelace sum is halved', 'the shoelace sum is not halved')
 
 
+def _guard_kinds(f, store):
+    """Conjuncts under which `result[i] = ...` executes, classified: 'present' (not missing[i]), 'nonempty' (stop > start of
+    element i), 'unknown'.  Recognises enclosing ifs (and-conjunctions) and a leading `if missing[i]: continue`."""
+    idx = norm(store.targets[0].slice)
+    miss = f.params[4] if len(f.params) > 4 else 'missing'
+    kinds = set()
+
+    def classify(t, negate=False):
+        if isinstance(t, ast.BoolOp) and isinstance(t.op, ast.And) and not negate:
+            for v in t.values:
+                classify(v)
+            return
+        if isinstance(t, ast.BoolOp) and isinstance(t.op, ast.Or) and negate:      # not (a or b) == not a and not b
+            for v in t.values:
+                classify(v, True)
+            return
+        if isinstance(t, ast.UnaryOp) and isinstance(t.op, ast.Not):
+            return classify(t.operand, not negate)
+        if norm(t) == f'{miss}[{idx}]':
+            kinds.add('present' if negate else 'unknown')
+            return
+        if isinstance(t, ast.Compare) and len(t.ops) == 1:
+            names = astq.names_in(t)
+            defs = {n_: astq.unique_def(f, n_)[1] for n_ in names}
+            if len(names) == 2 and all(isinstance(d, ast.Subscript) for d in defs.values()):
+                # both sides are offsets of element i / i + 1
+                subs = sorted(norm(d.slice) if not isinstance(d.slice, ast.Subscript) else norm(d.slice.slice) for d in defs.values())
+                if subs == sorted([idx, f'{idx} + 1']):
+                    op = type(t.ops[0])
+                    lo = [n_ for n_, d in defs.items() if (norm(d.slice) if not isinstance(d.slice, ast.Subscript) else norm(d.slice.slice)) == idx][0]
+                    left_is_lo = norm(t.left) == lo
+                    strict = (op is ast.Lt and left_is_lo) or (op is ast.Gt and not left_is_lo) or op is ast.NotEq
+                    empty = op is ast.Eq or (op is ast.GtE and left_is_lo) or (op is ast.LtE and not left_is_lo)
+                    if (strict and not negate) or (empty and negate):
+                        kinds.add('nonempty')
+                        return
+        kinds.add('unknown')
+
+    g = store
+    top = store
+    while getattr(g, '_parent', None) is not None and not isinstance(g._parent, ast.FunctionDef):
+        par = g._parent
+        if isinstance(par, ast.If):
+            if g in par.body:
+                classify(par.test)
+            else:
+                classify(par.test, True)
+        if isinstance(par, (ast.For, ast.While)):
+            top = g
+            # leading `if <cond>: continue` statements before the store's statement
+            for st in par.body:
+                if st is top:
+                    break
+                if isinstance(st, ast.If) and astq.real(st.body) and isinstance(astq.real(st.body)[0], ast.Continue) and not st.orelse:
+                    classify(st.test, True)
+            break
+        g = par
+    return kinds
+
+
+MAP_GUARDS = {}
+
+
 def map_kernels(P, R):
     BL = 'spatialpandas.geometry.baselist'
     for n in (1, 2, 3):
         f = P.func(BL, f'_geometry_map_nested{n}')
+        for x in ast.walk(f.node):
+            for ch in ast.iter_child_nodes(x):
+                ch._parent = x
         stores = [s for s in ast.walk(f.node) if isinstance(s, ast.Assign) and isinstance(s.targets[0], ast.Subscript) and norm(s.targets[0].value) == f.params[1]]
         R.floor('C14.b', f'result stores in {f.name}', len(stores), 1)
+        kinds_all = None
         for s in stores:
-            g = s
-            guard = None
-            while getattr(g, '_parent', None) is not None and not isinstance(g._parent, ast.FunctionDef):
-                g = g._parent
-                if isinstance(g, ast.If) and norm(g.test) == f'not {f.params[4]}[{norm(s.targets[0].slice)}]':
-                    guard = g
-            R.check(guard is not None, 'C14.b', f, s, 'the measure of element i is stored only when element i is not missing (result stays NaN otherwise)',
+            kinds = _guard_kinds(f, s)
+            kinds_all = kinds if kinds_all is None else (kinds_all | kinds)
+            R.check('present' in kinds, 'C14.b', f, s, 'the measure of element i is stored only when element i is not missing (result keeps its prefill otherwise)',
                     f'`{norm(s)}` is not guarded by `not missing[i]`: a missing element gets a number instead of NaN')
+        MAP_GUARDS[f.name] = kinds_all or set()
         asserts = [s for s in f.node.body if isinstance(s, ast.Assert)]
         depth = None
         for a in asserts:
@@ -97,10 +161,54 @@ def map_kernels(P, R):
         R.check(depth == n, 'C14.b', f, asserts[0] if asserts else None, f'{f.name} handles exactly {n} offset level(s)', f'{f.name} asserts depth {depth}', nontrivial=False)
 
 
+def _prefill_kind(P, caller, d):
+    """'nan' | 'zero_measure' (0 where present, NaN where missing) | 'zeros' | None"""
+    if not isinstance(d, ast.Call):
+        return None
+    t = norm(d)
+    if norm(d.func) in ('np.full', 'numpy.full') and len(d.args) >= 2 and norm(d.args[1]) in ('np.nan', 'numpy.nan') and 'len(self)' in norm(d.args[0]):
+        return 'nan'
+    if norm(d.func) in ('np.zeros', 'numpy.zeros') and d.args and 'len(self)' in norm(d.args[0]):
+        return 'zeros'
+    if isinstance(d.func, ast.Attribute) and norm(d.func.value) == 'self' and caller.cls is not None:
+        c2, m2 = P.lookup(caller.cls, d.func.attr)
+        if m2 is not None and m2[0] == 'func':
+            h = m2[1]
+            z = any(isinstance(x, ast.Assign) and norm(x.value).startswith('np.zeros(len(self)') for x in walk_own(h.node))
+            nn = any(isinstance(x, ast.Assign) and isinstance(x.targets[0], ast.Subscript) and 'isna()' in norm(x.targets[0].slice) and 'nan' in norm(x.value) for x in walk_own(h.node))
+            if z and nn:
+                return 'zero_measure'
+            if z:
+                return 'zeros'
+    return None
+
+
+def _check_prefill(P, R, caller, node, kernel_name):
+    g, d = astq.unique_def(caller, node.args[1].id) if isinstance(node.args[1], ast.Name) else (None, None)
+    kind = _prefill_kind(P, caller, d)
+    guards = MAP_GUARDS.get(kernel_name, set())
+    where = d if isinstance(d, ast.AST) else node
+    if kind is None:
+        R.bad('C14.b', caller, where, 'the result is not pre-filled with NaN per element', construct=f'{caller.qualname} prefill')
+        return
+    # final value of element i = fn(...) when stored, else the prefill; wanted: NaN if missing, fn (0 for an element without parts) otherwise
+    if kind == 'zeros':
+        R.bad('C14.b', caller, where, 'the result is pre-filled with 0 for every element: a missing element (never stored) reports 0 instead of NaN', construct=f'{caller.qualname} prefill')
+    elif 'nonempty' in guards and kind == 'nan':
+        R.bad('C14.b', caller, where, f'{kernel_name} skips elements without parts, and the result is pre-filled with NaN: an empty (not missing) element reports NaN instead of 0',
+              construct=f'{caller.qualname} prefill')
+    elif 'unknown' in guards and kind == 'nan':
+        R.abstain('C14.b', caller, where, f'{kernel_name} stores under a condition the analysis does not classify; whether skipped present elements keep a correct prefill is not decided', construct=f'{caller.qualname} prefill')
+    else:
+        R.ok('C14.b', caller, where, 'the prefill gives NaN to missing elements and every present element is stored (or keeps a 0 prefill when it has no parts)' if kind != 'nan'
+             else 'the result is pre-filled with NaN, one slot per element, and every present element is stored', construct=f'{caller.qualname} prefill')
+
+
 def run(P, R, tier):
     R.assume('S1/S2: Arrow buffer layout, x/y interleaving')
     kernel_rules(P, R)
     map_kernels(P, R)
+    common.no_fastmath(P, R, 'C14.a', ['spatialpandas.geometry._algorithms.measures', 'spatialpandas.geometry.baselist'])
     common.nan_buffers(P, R, 'C14.g', ['spatialpandas.geometry.' + m for m in ('point', 'multipoint', 'line', 'multiline', 'ring', 'polygon', 'multipolygon', '_algorithms.measures')], floor=4)
     I = Interp(P)
     seen = set()
@@ -126,10 +234,7 @@ def run(P, R, tier):
                     okp = len(args) >= 5 and isinstance(args[1], Arr) and isinstance(args[2], Vals) and args[2].base == 'abs' and isinstance(args[3], Tup) and len(args[3].items) == L
                     R.check(okp, 'C14.b', caller, node, 'the map kernel receives (result, whole value buffer, all offset levels, missing mask)',
                             f'the map kernel does not receive the whole value buffer with all {L} offset levels', nontrivial=False)
-                    # NaN prefill
-                    g, d = astq.unique_def(caller, node.args[1].id) if isinstance(node.args[1], ast.Name) else (None, None)
-                    okn = isinstance(d, ast.Call) and norm(d.func) == 'np.full' and 'np.nan' in norm(d) and 'len(self)' in norm(d)
-                    R.check(okn, 'C14.b', caller, d if isinstance(d, ast.AST) else node, 'the result is pre-filled with NaN, one slot per element', 'the result is not pre-filled with NaN per element')
+                    _check_prefill(P, R, caller, node, payload[0].name)
         if cls in ('PolygonArray', 'MultiPolygonArray'):
             ev0 = len(I.events)
             v = geom.get(I, a, 'boundary', f'{cls}.boundary')
